@@ -380,6 +380,18 @@ func h2cRationalMap9380(e refcurve.Point) refcurve.Point {
 	return refcurve.Curve25519().NewPoint(s, tt)
 }
 
+// h2cEmptyDSTRejected: RFC 9380 §3.1 requires tags of nonzero length. The library currently
+// accepts the empty tag (and the tests then treat it like any other); should it start to
+// REJECT exactly the empty tag with an error (never a panic), that is not a violation.
+func h2cEmptyDSTRejected(t *rapid.T, tg *h2cTarget, dst string, msg []byte) bool {
+	if dst != "" {
+		return false
+	}
+	var err error
+	vlib.NoPanic(t, tg.name+" HashWithDst with the empty DST", func() { _, err = tg.hashDst("", msg) })
+	return err != nil
+}
+
 // ---- test 1: structural properties on every curve -------------------------------------------
 
 func TestH2CProperties(t *testing.T) {
@@ -403,9 +415,19 @@ func TestH2CProperties(t *testing.T) {
 			}
 			return a
 		}
+		nt := len(msg) > 0 || dc != "default"
+		if h2cEmptyDSTRejected(t, tg, dst, msg) {
+			vlib.Case(test, vlib.Desc(tg.name, mc, dc), nt, "curve="+tg.name, "msg="+mc, "dst="+dc, "emptydst=rejected")
+			return
+		}
 		p := call("HashWithDst", func() (h2cAffine, error) { return tg.hashDst(dst, msg) })
 		again := call("HashWithDst (second call)", func() (h2cAffine, error) { return tg.hashDst(dst, append([]byte{}, msg...)) })
-		pd := call("HashWithDst (other DST)", func() (h2cAffine, error) { return tg.hashDst(dst2, msg) })
+		pd := p
+		if h2cEmptyDSTRejected(t, tg, dst2, msg) {
+			de = "rejected-empty" // nothing to compare; pd stays p and is exempt below
+		} else {
+			pd = call("HashWithDst (other DST)", func() (h2cAffine, error) { return tg.hashDst(dst2, msg) })
+		}
 		pm := call("HashWithDst (other message)", func() (h2cAffine, error) { return tg.hashDst(dst, msg2) })
 		pdef := call("Hash", func() (h2cAffine, error) { return tg.hash(msg) })
 
@@ -418,7 +440,7 @@ func TestH2CProperties(t *testing.T) {
 			t.Fatalf("%s: Hash(msg) = %v but HashWithDst(%q, msg) = %v", in, pdef, tg.defaultDST, def)
 		}
 		// DST dependence
-		if p.equal(pd) {
+		if de != "rejected-empty" && p.equal(pd) {
 			t.Fatalf("%s: DST %s (%s) gives the same point %v", in, vlib.Hex(dst2b), de, p)
 		}
 		if (dst == tg.defaultDST) != p.equal(pdef) {
@@ -453,7 +475,6 @@ func TestH2CProperties(t *testing.T) {
 			}
 		}
 
-		nt := len(msg) > 0 || dc != "default"
 		vlib.Case(test, vlib.Desc(tg.name, mc, dc), nt, "curve="+tg.name, "msg="+mc, "dst="+dc, "dstedit="+de, "msgedit="+me)
 		vlib.Sample("h2c:"+tg.name, map[string]any{"curve": tg.name, "msgClass": mc, "msgLen": len(msg), "dstClass": dc,
 			"dstLen": len(dst), "dst": vlib.Hex([]byte(dst)), "msg": vlib.Hex(msg), "point": p.String(), "dstEdit": de, "msgEdit": me})
@@ -469,6 +490,10 @@ func TestH2CP256Differential(t *testing.T) {
 		msg, mc := genH2CMsg(t, "msg")
 		dst, dc := genH2CDst(t, "dst", tg.defaultDST, tg.suite)
 		in := fmt.Sprintf("p256 dst=%s(%s) msg=%s(%s)", vlib.Hex([]byte(dst)), dc, vlib.Hex(msg), mc)
+		if h2cEmptyDSTRejected(t, tg, dst, msg) {
+			vlib.Case(test, vlib.Desc("p256", mc, dc), true, "msg="+mc, "dst="+dc, "emptydst=rejected")
+			return
+		}
 		var got h2cAffine
 		var err error
 		vlib.NoPanic(t, "HashWithDst "+in, func() { got, err = tg.hashDst(dst, msg) })
@@ -566,6 +591,10 @@ func TestH2C25519Differential(t *testing.T) {
 		msg, mc := genH2CMsg(t, "msg")
 		dst, dc := genH2CDst(t, "dst", mont.defaultDST, mont.suite)
 		in := fmt.Sprintf("dst=%s(%s) msg=%s(%s)", vlib.Hex([]byte(dst)), dc, vlib.Hex(msg), mc)
+		if h2cEmptyDSTRejected(t, mont, dst, msg) || h2cEmptyDSTRejected(t, edw, dst, msg) {
+			vlib.Case(test, vlib.Desc("25519", mc, dc), true, "msg="+mc, "dst="+dc, "emptydst=rejected")
+			return
+		}
 		want, u, err := h2cHashToCurve25519(msg, []byte(dst))
 		if err != nil {
 			t.Fatalf("%s: reference failed: %v", in, err)
